@@ -183,7 +183,7 @@ def translate_model(model, entry=None, safety=False, keep=False):
                 pass
 
 
-def eval_formulas(base_sheets, formulas, sheet='S', first_col=27, ncols=8, overrides=None):
+def eval_formulas(base_sheets, formulas, sheet='S', first_col=27, ncols=8, overrides=None, mode='whole'):
     """Evaluate many formulas placed in a dense block of `sheet` (columns first_col..), one workbook.
 
     Returns list of outcome tuples, one per formula.  On a whole-file translation
@@ -203,7 +203,7 @@ def eval_formulas(base_sheets, formulas, sheet='S', first_col=27, ncols=8, overr
         def whole():
             src = translate_path(path)
             return Tr(src, load_source(src))
-        o = outcome(whole, timeout=CALL_TIMEOUT * 4)
+        o = outcome(whole, timeout=CALL_TIMEOUT * 4) if mode == 'whole' else ('skipped',)
         res = []
         if o[0] == 'value':
             tr = o[1]
